@@ -253,7 +253,7 @@ def run(ctx: Any) -> None:
 
     try:
         # ============ A. unit level: production ========================================================================
-        n_coll = 60 if quick else 600
+        n_coll = 60 if quick else 300
         objects: list[dict[str, Any]] = []  # externalised cycles, reused by the resolve scenarios
         for i in range(n_coll):
             schema = D.SCHEMAS[0] if rng.random() < 0.8 else D.SCHEMAS[rng.choice([1, 2, 4])]
@@ -296,7 +296,7 @@ def run(ctx: Any) -> None:
                     ctx.violation("collector-external-bytes-misreported", f"reported {ext_bytes}, raw IPC is {len(raw)}", repl)
                 objects.append({"schema": schema, "cycle": cyc[: len(head)], "abs": head, "ptr": bl[0], "bid": bid, "raw": raw, "comp": comp, "stored": store.blobs.get(bid)})
 
-        n_b = 40 if quick else 400
+        n_b = 40 if quick else 200
         for i in range(n_b):
             schema = D.SCHEMAS[rng.choice([0, 0, 1, 4])]
             rows = rng.choice([0, 1, 2, 5, 60])
@@ -414,7 +414,7 @@ def run(ctx: Any) -> None:
 
         rng.shuffle(objects)
         with_data = [o for o in objects if any(c[0] == "data" for c in o["cycle"])]
-        n_obj = 6 if quick else 40
+        n_obj = 6 if quick else 16
         for oi, o in enumerate(with_data[:n_obj]):
             body, enc = o["stored"]
             resolve_case(o, "faithful", [(body, enc)], "orig", 2, True)
@@ -450,7 +450,7 @@ def run(ctx: Any) -> None:
             with opener(scfg, ccfg) as (proxy, rec, closer):
                 return sv.run_script(proxy, rec, script, closer=closer)
 
-        n_prog = 10 if quick else 60
+        n_prog = 10 if quick else 30
         for pi in range(n_prog):
             kind = ["unary", "producer", "producer_h", "exchange", "exchange_h"][pi % 5]
             exc_after = kind != "unary" and pi % 10 >= 8
@@ -504,12 +504,12 @@ def run(ctx: Any) -> None:
                                 "over HTTP an exchange response is read up to its data batch: logs (and an EXCEPTION-level log) the method emits after the data batch "
                                 "are dropped inline, but are dispatched (and raised) when the cycle is externalised, because the whole cycle sits in the external object",
                                 repl)
-                        elif exc_after and pe["logs"] == pb["logs"] and strict_prefix and pe["terminal"] == exc_err and pb["terminal"] in (None, exc_err):
+                        elif exc_after and pe["logs"] == pb["logs"][: len(pe["logs"])] and strict_prefix and pe["terminal"] == exc_err and pb["terminal"] in (None, exc_err):
                             ctx.violation(
                                 "exception-log-after-data-drops-the-externalised-batch",
                                 "a cycle that emits a data batch and then an EXCEPTION-level client log delivers the batch and then the error inline, "
                                 "but only the error when the cycle is externalised (the whole cycle is in the external object and "
-                                "_fetch_and_resolve raises before returning the batch)", repl)
+                                "_fetch_and_resolve raises before returning the batch); what the inline run delivers after that point is lost too", repl)
                         else:
                             ctx.violation("externalised-delivery-differs-from-inline", "logs / values / terminal error differ from inline delivery", repl)
         ctx.sample({"e2e": "program x {pipe,http} x thresholds x compression; inline trace vs externalised trace (projections)"})
